@@ -47,4 +47,18 @@ TEXT["C15"] = {
     "note": COMMON_NOTE + "Coordinate closed forms and the normal-form argument are compared, not proved (partial). The monotonic-buffer pointer discipline is observed through ASan, not modelled.",
     "technique": "Lean 4 theorems (mutual structural induction, saturating arithmetic) + oracle correspondence on API histories under ASan",
 }
+TEXT["C02"] = {
+    "level": "Kernel-checked: each FrameSimulator per-gate rule equals the sign-free documented conjugation (3 widths, regenerated each run); the Pauli-frame relation between a noisy shot and the "
+             "noiseless reference is preserved by noise, forced measurements and free measurements for either randomisation coin (all sizes). Correspondence: every sampled record is tested for "
+             "membership in the affine space the Lean frame model derives from the circuit (a verified-by-construction linear-algebra oracle), all allowed directions must be taken, and "
+             "deterministic circuits must produce identical bytes in memory and streamed, in all six formats.",
+    "note": COMMON_NOTE + "The induction that assembles the step theorems into fsim_shot_valid is not yet done (partial); rates/uniformity are C05's statistical tier.",
+    "technique": "Lean 4 theorems (Pauli-frame invariant steps, decide over regenerated tables) + GF(2) membership oracle correspondence",
+}
+TEXT["C04"] = {
+    "level": "Specification-level evaluator of DETECTOR / OBSERVABLE_INCLUDE parities in Lean (structural recursion over the unrolled program) applied to the measurement record of the same shot the "
+             "implementation reported detection events for, and to measurements_to_detection_events outputs (with sweep bits, with/without reference sample).",
+    "note": COMMON_NOTE + "Theorems for this property are small (XOR semantics); the assurance comes mainly from the oracle correspondence. CLI option matrix not yet driven (partial).",
+    "technique": "Lean 4 executable specification + oracle correspondence on same-shot data",
+}
 NOT_CLAIMED = {}
